@@ -415,9 +415,13 @@ impl PreferenceManager {
 
     /// The language whose files are used: the value of "Language" unless that is "Auto", in which case it is "LanguageAuto" (falling back to "en")
     fn language_in_use(&self) -> String {
-        let language = self.pref_to_string("Language");
+        return self.language_to_use(&self.pref_to_string("Language"));
+    }
+
+    /// The language whose files are used when "Language" has the value 'language'
+    fn language_to_use(&self, language: &str) -> String {
         if language != "Auto" {
-            return language;
+            return language.to_string();
         }
         let language_auto = self.pref_to_string("LanguageAuto");
         return if language_auto.is_empty() || language_auto == NO_PREFERENCE {"en".to_string()} else {language_auto};
@@ -512,15 +516,17 @@ impl PreferenceManager {
 
         let old_language = get_str(&self.user_prefs, "Language")?.to_string();
         let new_language = get_str(new_prefs, "Language")?;
+        // "Auto" is not a language: the files are those of "LanguageAuto" (which is not stored in the preference files)
+        let new_language_to_use = self.language_to_use(new_language);
         if old_language != new_language {
             let language_dir = self.rules_dir.to_path_buf().join("Languages");
-            self.set_speech_files(&language_dir, new_language, None)?;  // also sets style file
+            self.set_speech_files(&language_dir, &new_language_to_use, None)?;  // also sets style file
         } else {
             let old_speech_style = get_str(&self.user_prefs, "SpeechStyle")?.to_string();
             let new_speech_style = get_str(new_prefs, "SpeechStyle")?;
             let language_dir = self.rules_dir.to_path_buf().join("Languages");
             if old_speech_style != new_speech_style {
-                self.set_speech_files(&language_dir, new_language, Some(new_speech_style))?;
+                self.set_speech_files(&language_dir, &new_language_to_use, Some(new_speech_style))?;
             }
         }
 
